@@ -17,7 +17,7 @@ pub fn meta() -> Meta {
         rule: "for every instruction of the shared single-instruction/sequence workload (all ALU register pairs with MUL/DIV over all 65 536 operand pairs, unary ops, JR x flags x offsets, all two-byte forms x sampled pointers biased to the 0xEF/0xF0 boundary, stack/CALL/RETI/DEC-memory forms, random programs) the recorded edge log between two boundaries is checked: executed-step count = documented path length, bus accesses in documented order, exactly one wait-skipped edge after each step touching 0x00-0xEF and none otherwise, wait-skipped edges change nothing but the wait flag, and the same instruction costs the same number of edges in assembly-step mode. distinct_nontrivial counts distinct (first byte, executed steps, waits) classes observed",
         exhaustive: false,
         assumptions: vec!["documented path lengths are those of DESIGN.md appendix A (refmodel::isa), including the data-dependent formulas of MUL and DIV"],
-        floors: vec![("instructions_checked", 3_000_000), ("muldiv_cases", 3_000_000), ("wait_edges_checked", 3_000_000), ("io_access_steps", 10_000), ("ram_access_steps", 300_000), ("stepmode_compared", 100_000)],
+        floors: vec![("instructions_checked", 3_000_000), ("muldiv_cases", 3_000_000), ("wait_edges_checked", 3_000_000), ("io_access_steps", 10_000), ("ram_access_steps", 300_000), ("stepmode_compared", 100_000), ("interrupt_entries_costed", 2_000)],
     }
 }
 
@@ -166,10 +166,17 @@ fn analyse(first: u8, steps: u32, accesses: &[Access], log: &[EdgeEvent], class:
     None
 }
 
-fn run_case(template: &Machine, init: &Init, n: usize, rep: &mut Report) -> (u64, Option<Viol>) {
+fn run_case(template: &Machine, init: &Init, n: usize, irq_seed: Option<u64>, rep: &mut Report) -> (u64, Option<Viol>) {
     let r = catch(|| {
         let mut local = Report::new();
         let mut m = init.build(template);
+        let mut irq_rng = irq_seed.map(crate::rng::Rng::new);
+        if irq_rng.is_some() {
+            // key interrupts enabled from the start: enable bit in the MICR and IE in the flag register
+            m.raw_mut().bus_mut().write(0xF9, 0x01);
+            let fr = real::arch(&m).fr;
+            real::set_reg(&mut m, 4, fr | 0x08);
+        }
         if let Adv::Halted(_) = real::to_first_boundary(&mut m) {
             return (0, None, local);
         }
@@ -197,10 +204,43 @@ fn run_case(template: &Machine, init: &Init, n: usize, rep: &mut Report) -> (u64
                     return (checked, Some(Viol("C15:reset-to-first-fetch".into(), format!("{} clock edges from a CPU reset to the first opcode fetch, expected 1", edges), k)), local);
                 }
             }
+            if let Some(r) = irq_rng.as_mut() {
+                if r.chance(1, 6) {
+                    lock.m.trigger_key_interrupt();
+                    local.inc("key_presses");
+                }
+            }
+            let latched = lock.m.verif_snapshot().pending_edge_interrupt;
             let first = lock.m.bus().read(lock.cpu.r[3]);
-            let out = isa::step(&mut lock.cpu, &mut lock.bus);
+            lock.bus.f9_read = false;
+            let mut out = isa::step(&mut lock.cpu, &mut lock.bus);
+            if latched {
+                // the request is sampled by the last word of every instruction except EI, DI and RETI;
+                // with IE set (after the instruction) the entry sequence follows instead of the fetch:
+                // 8 more steps (IR reset word + push FR + push PC + DI + jump to 2), two stack writes
+                if let Outcome::Done { steps, accesses, class } = &mut out {
+                    use crate::refmodel::isa::Class;
+                    let samples = !matches!(class, Class::Ei | Class::Di | Class::Reti);
+                    if samples && lock.cpu.fr & 0x08 != 0 {
+                        *steps += 8;
+                        accesses.push(Access::Write(lock.cpu.sp.wrapping_sub(1)));
+                        accesses.push(Access::Write(lock.cpu.sp.wrapping_sub(2)));
+                        local.inc("interrupt_entries_costed");
+                    }
+                }
+            }
             if let Outcome::Undefined { .. } = out {
                 break;
+            }
+            if lock.bus.f9_read {
+                // the interrupt status register read by this instruction is modified by the CPU
+                // itself while the instruction runs (not modelled, see C01): execute, do not judge
+                if let Adv::Halted(_) = real::to_next_boundary(&mut lock.m) {
+                    break;
+                }
+                lock.resync();
+                local.inc("misr_reads_not_judged");
+                continue;
             }
             // cost in assembly-step mode from the same state
             let mut asm_clone = lock.m.clone();
@@ -265,7 +305,8 @@ pub fn run(ctx: &Ctx) -> Report {
     par_items(ctx.threads, total, ctx.seed, |i, seed, rep| {
         let mut sampled = false;
         c01::cases(i, seed, &sz, &mut |group, init, n, _hint| {
-            let (checked, v) = run_case(&template, init, n, rep);
+            let irq = if group == "seq" && seed & 1 == 1 { Some(seed ^ init.ram[7] as u64) } else { None };
+            let (checked, v) = run_case(&template, init, n, irq, rep);
             rep.evaluations += 1;
             rep.count("instructions_checked", checked);
             if group == "alu" && (init.ram[init.regs[3] as usize] & 0xF0 == 0xB0 || init.ram[init.regs[3] as usize] & 0xF0 == 0xC0) {
@@ -276,7 +317,11 @@ pub fn run(ctx: &Ctx) -> Report {
                 rep.sample(obj![("kind", "random program, every instruction's edge log checked"), ("program_first_32_bytes", hex(&init.ram[..32])), ("instructions_checked", checked)]);
             }
             if let Some(Viol(sig, what, k)) = v {
-                rep.violate(&sig, format!("instruction #{}: {}", k, what), init.to_json(n));
+                let mut w = init.to_json(n);
+                if let Some(s) = irq {
+                    w.set("irq_seed", J::Int(s as i64));
+                }
+                rep.violate(&sig, format!("instruction #{}: {}", k, what), w);
             }
         });
     })
@@ -286,7 +331,8 @@ pub fn replay(_ctx: &Ctx, w: &J) -> Report {
     let mut rep = Report::new();
     let (init, n) = Init::from_json(w);
     let template = real::blank_machine();
-    let (checked, v) = run_case(&template, &init, n, &mut rep);
+    let irq = w.get("irq_seed").and_then(|v| v.as_i64()).map(|v| v as u64);
+    let (checked, v) = run_case(&template, &init, n, irq, &mut rep);
     rep.evaluations = 1;
     rep.count("instructions_checked", checked);
     if let Some(Viol(sig, what, k)) = v {
